@@ -1,5 +1,7 @@
 import TSSVerif.Proofs.RbcNet
 import TSSVerif.Model.Classify
+import TSSVerif.Gen.Stmts
+import TSSVerif.Model.StmtsExpected
 /-!
 # C04 — reliable broadcast totality in fault-free runs, for every interleaving
 
@@ -375,5 +377,12 @@ def exRun : Net :=
 example : exRun.flight = [] := by decide
 example : (outsOf exC exRun 3).filter (Out.isDeliverSR 1 1) = [Out.deliverB [7#8] exK] := by decide
 example : (outsOf exC exRun 2).filter (Out.isDeliverSR 1 1) = [Out.deliverB [7#8] exK] := by decide
+
+
+/-- **The source the model was transcribed from is the current source**: the statements of `Receiver.Receive`, `registerMsg`, `initIfNeeded` and the dispatch path `handleMPC` / `handleRBC` / `handleAck` / `rbcFilter.Receive` / `threadSafeRBC.Receive`, regenerated from
+`/repo` on this run, are the committed ones (logging left out). A change of any of them — harmless or not — fails here
+first; the differential and monitored runs of this property are then the search for an input on which it fails. -/
+theorem source_as_modelled : TSSVerif.Gen.Stmts.rbc = TSSVerif.Model.StmtsExpected.rbc := by
+  decide +kernel
 
 end TSSVerif.Props.C04
